@@ -148,6 +148,10 @@ func (e *Engine) verifyFunc(fn *ssa.Function, c *Contract, prop string) (rep *Fu
 		env := &SpecEnv{e: e, pre: st, post: st, vars: vars, pkg: pkg, paramsFirst: true}
 		st.assume(env.evalBool(r.E))
 	}
+	if fn.Synthetic == "package initializer" && fn.Pkg != nil {
+		// the initializer runs once: verify the run in which the guard is still false
+		st.heapSet("GV:"+fn.Pkg.Pkg.Path()+".init$guard", False())
+	}
 	e.entry = st.clone()
 	e.entryParams = vars
 	e.frame = nil
@@ -188,7 +192,7 @@ func (e *Engine) verifyFunc(fn *ssa.Function, c *Contract, prop string) (rep *Fu
 			if len(en.Props) > 0 && prop != "" && !contains(en.Props, prop) {
 				continue
 			}
-			env := &SpecEnv{e: e, pre: e.entry, post: o.st, vars: ovars, pkg: pkg, paramsFirst: true, allocBefore: e.entry.allocTerm()}
+			env := &SpecEnv{e: e, pre: e.entry, post: o.st, vars: ovars, pkg: pkg, paramsFirst: true, allocBefore: e.entry.allocTerm(), params: vars}
 			g := env.evalBool(en.E)
 			e.emit(&Obligation{Kind: "post", Fn: key, Label: orStr(en.Label, fmt.Sprint(i+1)), PC: o.st.pc, Goal: g, Src: en.Src, Line: en.Line, Trace: o.st.trace})
 		}
@@ -266,6 +270,18 @@ func (e *Engine) resolveFrame(c *Contract, vars map[string]SVal, pkg *types.Pack
 					fi.objs = append(fi.objs, frameObj{"BigVal", v.V.T})
 				case "dyn":
 					fi.all = true
+				case "deref":
+					if pt, ok := v.T.Underlying().(*types.Pointer); ok && v.V.T != nil {
+						if kindOf(pt.Elem()) == kStruct {
+							for _, l := range leaves(pt.Elem()) {
+								fi.objs = append(fi.objs, frameObj{fieldKey(pt.Elem(), l.path), v.V.T})
+							}
+						} else {
+							for _, l := range leaves(pt.Elem()) {
+								fi.objs = append(fi.objs, frameObj{boxKey(pt.Elem(), l.path), v.V.T})
+							}
+						}
+					}
 				case "obj":
 					pt, ok := v.T.Underlying().(*types.Pointer)
 					if !ok {
@@ -326,8 +342,8 @@ func (e *Engine) frameObligations(c *Contract, key string, st *State, vars map[s
 	}
 	done := map[string]bool{}
 	for _, k := range sortedKeys(st.heap) {
-		if fi.keys[k] {
-			continue
+		if fi.keys[k] || strings.HasPrefix(k, "G:$") {
+			continue // (G:$... are model-internal ghosts, e.g. the current state of an fsm object)
 		}
 		final := st.heap[k]
 		sortK := heapSorts[k]
